@@ -136,7 +136,7 @@ type dialRec struct {
 	start, end       uint64
 	startAt, endAt   time.Duration
 	ctx              context.Context
-	cancelledAtStart bool
+	cancelledAtStart bool // the shared context had been cancelled (every caller gone) before the transport was invoked
 	ctxErrAtEnd      error
 	err              error
 	ok               bool
@@ -176,7 +176,7 @@ func (w *world) peerIndex(p peer.ID) int {
 }
 
 func (w *world) begin(kind int, raddr ma.Multiaddr, p peer.ID, ctx context.Context) *dialRec {
-	r := &dialRec{kind: kind, peer: w.peerIndex(p), addr: raddr.String(), ctx: ctx, cancelledAtStart: ctx.Err() != nil,
+	r := &dialRec{kind: kind, peer: w.peerIndex(p), addr: raddr.String(), ctx: ctx, cancelledAtStart: errors.Is(ctx.Err(), context.Canceled),
 		start: simrt.Stamp(), startAt: simrt.Now()}
 	w.recs = append(w.recs, r)
 	return r
@@ -237,10 +237,13 @@ func (w *world) genPeer(g simrt.Gen, pi, n int, exact, noise, allFail bool, ownA
 			t.script = []int{sRefuse, sHang}[g.Weighted(3, 1)]
 			return
 		}
+		// Stall faults in the middle of a Noise handshake are NOT drawn: the handshake then ends at its
+		// read deadline, which Noise sets to the very instant of the context deadline; the reader (woken by
+		// simnet's deadline timer, no scheduling point before its `respCh <- runHandshake()` send) races the
+		// context's timer goroutine for real, and the run stops being reproducible. Accept-then-stall is
+		// covered by the silent listener (sSilent), whose only way out is the context.
 		wStall := 0
-		if noise {
-			wStall = 1
-		}
+		_ = noise
 		t.script = g.Weighted(3, 4, 2, 1, 1, 1, 1, wStall)
 		switch t.script {
 		case sReset:
